@@ -75,7 +75,7 @@ fn c16_raw_attribute_len_5() { raw_attr_obligation::<5>(); }
 #[kani::unwind(12)]
 fn c16_raw_attribute_len_7() { raw_attr_obligation::<7>(); }
 #[kani::proof]
-#[kani::unwind(8)]
+#[kani::unwind(10)]
 fn c16_pad_four_bytes_all_residues() {
     let n: usize = kani::any();
     kani::assume(n <= 7);
@@ -116,7 +116,7 @@ fn any_class() -> (StunClass, u16) {
 /// length field already counting the MI attribute; FINGERPRINT = crc(prefix with length counting
 /// FP) ^ 0x5354554e and is the last attribute; final length == len - 20.
 #[kani::proof]
-#[kani::unwind(26)]
+#[kani::unwind(48)]
 #[kani::stub(hmac_sha1, rec_hmac_sha1)]
 #[kani::stub(crc32, rec_crc32)]
 fn c16_encode_empty_mi_fp() {
@@ -142,7 +142,7 @@ fn c16_encode_empty_mi_fp() {
 }
 /// same with two fixed-size attributes in front (PRIORITY, ICE-CONTROLLING): coverage grows with them
 #[kani::proof]
-#[kani::unwind(50)]
+#[kani::unwind(70)]
 #[kani::stub(hmac_sha1, rec_hmac_sha1)]
 #[kani::stub(crc32, rec_crc32)]
 fn c16_encode_two_attrs_mi_fp() {
